@@ -1,15 +1,26 @@
 #!/bin/bash
-# regress_seeds.sh [glob]: apply every filed seeded change to /repo in turn, run the quick check of its property, undo it.
-# Prints one line per seed: <seed> <property> exit=<code> violations=<n>.  Expected: exit=1 for every seed except the stated
+# regress_seeds.sh [glob] [jobs]: every filed seeded change must still be caught.  For each /verif/seeded/<id>: a scratch worktree of
+# /repo HEAD under /tmp/rs/<id>, `git apply` the patch there, run the quick check of the seed's property with PYTHONPATH pointing at the
+# worktree (so that it, not /repo, is imported), remove the worktree.  /repo itself is not touched, so several run in parallel
+# (default 4).  One line per seed: <seed> <property> exit=<code> violations=<n>.  Expected: exit=1 for every seed except the stated
 # exclusions (C11-m2, C11-r2m1: dtype; C13-m2, C12-r2m2: float rounding of a quotient), which stay at exit=0.
-# /repo must be clean and nothing else may use it meanwhile.
+# (The evidence files this rewrites are not evidence for the registered checks: re-run tools/run_all.sh afterwards.)
 cd "$(dirname "$0")/.."
-GLOB=${1:-*}
-for d in seeded/$GLOB/; do
-  id=$(basename $d)
-  prop=$(python3 -c "import json,sys; print(json.load(open('$d/meta.json'))['property'])")
-  out=$(tools/try_seed.sh /verif/$d/patch.diff $prop quick 2>&1)
-  rc=$(echo "$out" | grep -o "exit=[0-9]*" | tail -1)
-  nv=$(echo "$out" | grep -o "violations=[0-9]*" | tail -1)
-  echo "$id $prop $rc $nv"
-done
+GLOB=${1:-*}; JOBS=${2:-4}
+bin/bootstrap.sh >/dev/null 2>&1
+one() {
+  d=$1; id=$(basename $d)
+  prop=$(python3 -c "import json; print(json.load(open('$d/meta.json'))['property'])")
+  wt=/tmp/rs/$id; rm -rf $wt; mkdir -p /tmp/rs
+  git -C /repo worktree add -q --detach $wt HEAD 2>/dev/null || { echo "$id $prop worktree-failed"; return; }
+  if git -C $wt apply /verif/$d/patch.diff 2>/dev/null; then
+    out=$(cd /verif && VERIF_EVIDENCE_DIR=/tmp/rs/ev_$id PYTHONPATH=$wt timeout 3000 .venv/bin/python -W ignore -m harness.run $prop --tier quick 2>&1); rc=$?
+    echo "$id $prop exit=$rc violations=$(echo "$out" | grep -c '^VIOLATION')"
+  else
+    echo "$id $prop patch-does-not-apply"
+  fi
+  git -C /repo worktree remove --force $wt; rm -rf /tmp/rs/ev_$id
+}
+export -f one
+ls -d seeded/$GLOB/ | xargs -P $JOBS -I{} bash -c 'one {}'
+git -C /repo worktree prune
